@@ -5,6 +5,7 @@ import (
 	"go/ast"
 	"go/token"
 	"go/types"
+	"golang.org/x/tools/go/ssa"
 	"sort"
 	"strings"
 )
@@ -2203,7 +2204,9 @@ func runNullSkipNeedsKnown(rr *RuleRun) {
 				}
 				n++
 				key := fmt.Sprintf("%s.%s.Impl/%s.IsNull()→continue", pkg, s.Name, v.Name())
-				if cf.HoldsAt(is.Cond, func(cond ast.Expr, truth bool) bool { return truth && methodCond(info, cond, v, "IsKnown", "IsWhollyKnown") }) {
+				if cf.HoldsAt(is.Cond, func(cond ast.Expr, truth bool) bool {
+					return truth && methodCond(info, cond, v, "IsKnown", "IsWhollyKnown")
+				}) {
 					rr.OK(key, is.Pos(), "the argument is established to be known before its nullness decides anything")
 				} else {
 					rr.Violation(key, is.Pos(), fmt.Sprintf("%s may be unknown here (its parameter allows unknown and null values) and is skipped only if IsNull() — which is false for an unknown value that may still turn out to be null: the argument is then treated as definitely not null and decides the result with whatever refinements it carries", v.Name()))
@@ -2412,4 +2415,80 @@ func runPairedIndexNeedsLength(rr *RuleRun) {
 			return true
 		})
 	})
+}
+
+// ---------------------------------------------------------------------------
+// C20.copy-is-fresh
+
+func init() {
+	register(&Rule{
+		ID: "C20.copy-is-fresh", Prop: "C20", Also: []string{"C19"}, Floor: 1, Controls: 0,
+		Doc: "a method named Copy whose result is a slice, map or pointer (Path.Copy) returns freshly allocated memory: a re-sliced or capacity-clipped view of the receiver still shares the receiver's backing array, so what the caller keeps is overwritten when the owner reuses its buffer (the walk reuses one path buffer for all siblings)",
+		Run: runCopyIsFresh,
+	})
+}
+
+func runCopyIsFresh(rr *RuleRun) {
+	o := rr.Ctx.Own()
+	for _, fn := range o.moduleFuncs() {
+		if (fn.Name() != "Copy" && fn.Name() != "copy") || fn.Signature.Recv() == nil || fn.Signature.Results().Len() != 1 {
+			continue
+		}
+		if !isMutableRef(fn.Signature.Results().At(0).Type()) {
+			continue
+		}
+		if namedType(fn.Signature.Results().At(0).Type()) == "cty.unknownValRefinement" {
+			continue // C20.builder-copy
+		}
+		sum := o.retSummaryOf(fn, 0, 0, nil)
+		key := fnKey(fn)
+		if sum != nil && sum.only(oFresh) {
+			rr.OK(key, fn.Pos(), "returns fresh memory")
+		} else {
+			rr.Violation(key, fn.Pos(), fmt.Sprintf("%s does not return fresh memory (%s): the copy shares storage with the receiver, so a later write through the original (the reused path buffer of a walk, an append within capacity) changes what the caller kept", fn.Name(), sum))
+		}
+	}
+}
+
+// ---------------------------------------------------------------------------
+// C20.no-payload-in-records
+
+func init() {
+	register(&Rule{
+		ID: "C20.no-payload-in-records", Prop: "C20", Also: []string{"C19", "C04"}, Floor: 1, Controls: 0,
+		Doc: "a record handed to callers (PathValueMarks) never receives a mark map or path that is payload memory of a value: what is stored into its Marks / Path fields is fresh, a copy, or caller-provided — never marker.marks itself, which every copy of the marked value shares",
+		Run: runNoPayloadInRecords,
+	})
+}
+
+func runNoPayloadInRecords(rr *RuleRun) {
+	o := rr.Ctx.Own()
+	for _, fn := range o.moduleFuncs() {
+		if fn.Pkg == nil || shortPkg(fn.Pkg.Pkg) != "cty" {
+			continue
+		}
+		var x *octx
+		for _, b := range fn.Blocks {
+			for _, in := range b.Instrs {
+				st, ok := in.(*ssa.Store)
+				if !ok {
+					continue
+				}
+				fk := storedFieldKey(st)
+				if fk != "cty.PathValueMarks.Marks" && fk != "cty.PathValueMarks.Path" {
+					continue
+				}
+				if x == nil {
+					x = o.newCtx(fn, 0)
+				}
+				org := x.origin(st.Val)
+				key := fnKey(fn) + "/" + fk
+				if a, ok := org.first(oPayload); ok {
+					rr.Violation(key, instrPos(in), fmt.Sprintf("the record handed out to the caller receives payload memory of a value (%s via %s): the caller can change the marks of every copy of that value by writing to the map it was given", org.String(), a.Via))
+				} else {
+					rr.OK(key, instrPos(in), "stored: "+org.String())
+				}
+			}
+		}
+	}
 }
